@@ -296,3 +296,26 @@ Proof.
   - destruct (update _ _ _ _ _ _); discriminate.
   - destruct (update _ _ _ _ _ _); discriminate.
 Qed.
+
+(* ---------- creating a missing data DBI (shadow mode) ---------- *)
+(* a snapshot older than format 3 does not say what flags the application DBI had: without an explicit
+   override_create_flags FOR THAT DBI the load is refused as a whole (the first failing DBI aborts, load_dbis_fails) *)
+Theorem load_one_refuses_old_format c fmt compat T cutoff d st :
+  i_native c = false -> has_prefix sync_prefix (sd_name d) = false ->
+  validate_transform fmt false d = Ok tt ->
+  find_dbi (fst st) (sd_name d) = None ->
+  override_of (i_override c) (sd_name d) = None -> fmt < 3 ->
+  load_one c fmt compat T cutoff d st = Err ERefused.
+Proof.
+  intros Hn Hp Hv Hf Ho Hlt. unfold load_one. rewrite Hp, Hn, Hv, Hf, Ho.
+  replace (fmt <? 3) with true by lia. reflexivity.
+Qed.
+
+(* the options of one DBI never influence another: load_one looks at the override of ITS OWN name only *)
+Theorem load_one_override_local c c' fmt compat T cutoff d st :
+  i_native c' = i_native c -> i_padding c' = i_padding c -> i_cancelled c' = i_cancelled c ->
+  override_of (i_override c') (sd_name d) = override_of (i_override c) (sd_name d) ->
+  load_one c' fmt compat T cutoff d st = load_one c fmt compat T cutoff d st.
+Proof.
+  intros Hn Hp Hc Ho. unfold load_one. rewrite Hn, Hp, Hc, Ho. reflexivity.
+Qed.
